@@ -63,6 +63,12 @@ Notation MP := (M exn out h11p).
 Definition v_of_h1state (s : h1state) : val := VZ (h1state_tag s).
 Definition note (s : string) : MP unit := emit (ONote s).
 
+(* an h2c upgrade is requested: Upgrade: h2c (the last Upgrade header counts) and no body announced *)
+Definition h2c_requested (hs : list header) : bool :=
+  let up := fold_left (fun acc h => if beqb (lower (str_strip (fst h))) (B "upgrade") then str_strip (snd h) else acc) hs [] in
+  let has_body := existsb (fun h => let n := lower (str_strip (fst h)) in beqb n (B "content-length") || beqb n (B "transfer-encoding")) hs in
+  beqb (lower up) (B "h2c") && negb has_body.
+
 Section Proto.
   Variable cfg : h11cfg.
 
@@ -178,11 +184,9 @@ Section Proto.
     existsb (fun t => beqb (str_strip t) (B "upgrade")) (split1 44 (lower conn))
     && beqb (lower up) (B "websocket") && beqb (upper method) (B "GET").
 
-  (* _check_protocol: None = continue; Some e = the control-flow exception raised *)
+  (* _check_protocol *)
   Definition check_protocol (method target : bytes) (hs : list header) (version : bytes) : MP unit :=
-    let up := fold_left (fun acc h => if beqb (lower (str_strip (fst h))) (B "upgrade") then str_strip (snd h) else acc) hs [] in
-    let has_body := existsb (fun h => let n := lower (str_strip (fst h)) in beqb n (B "content-length") || beqb n (B "transfer-encoding")) hs in
-    if beqb (lower up) (B "h2c") && negb has_body then
+    if h2c_requested hs then
       send_h11_event (SInfo 101 (c_server_headers cfg ++ [(B "connection", B "upgrade"); (B "upgrade", B "h2c")])) ;;
       raise EH2CRequired
     else if beqb method (B "PRI") && beqb target (B "*") && beqb version (B "2.0") then raise EH2Assumed
